@@ -88,6 +88,35 @@ package netconf
 //@   ensures #framing-1.1 result.1 == nil && v == "1.1" ==> result.0.framedXML === "#" ++ decimal(len(result.0.rawXML)) ++ "\n" ++ result.0.rawXML ++ "\n##"
 //@   ensures #unknown-version-unframed result.1 == nil && v != "1.0" && v != "1.1" ==> result.0.framedXML === result.0.rawXML
 
+// ---- C03: the element builders carry the caller's filter / datastore / defaults unaltered, each in its own place -------
+//@ func (*Driver).buildFilterElem [C03]
+//@   modifies alloc()
+//@   ensures #no-filter-no-element (filter == "" || filterType == "") ==> result.0 == nil && result.1 == nil
+//@   ensures #subtree-filter-is-the-element-content filter != "" && filterType == "subtree" ==> result.1 == nil && fresh(result.0) && result.0.Type == "subtree" && result.0.Select == "" && result.0.Payload == filter
+//@   ensures #xpath-filter-is-the-select-attribute-and-the-element-is-empty filter != "" && filterType == "xpath" ==> result.1 == nil && fresh(result.0) && result.0.Type == "xpath" && result.0.Select == filter && result.0.Payload == ""
+//@   ensures #unknown-filter-type-is-an-error filter != "" && filterType != "" && filterType != "subtree" && filterType != "xpath" ==> result.1 != nil && result.0 == nil
+//@ func (*Driver).buildDefaultsElem [C03]
+//@   modifies alloc()
+//@   ensures #no-defaults-no-element defaultsType == "" ==> result.0 == nil && result.1 == nil
+//@   ensures #known-defaults-type-is-the-element-content (defaultsType == "report-all" || defaultsType == "report-all-tagged" || defaultsType == "trim" || defaultsType == "explicit") ==> result.1 == nil && fresh(result.0) && result.0.Type == defaultsType && result.0.Namespace == "urn:ietf:params:xml:ns:yang:ietf-netconf-with-defaults"
+//@   ensures #unknown-defaults-type-is-an-error defaultsType != "" && defaultsType != "report-all" && defaultsType != "report-all-tagged" && defaultsType != "trim" && defaultsType != "explicit" ==> result.1 != nil && result.0 == nil
+//@ func (*Driver).buildSourceElem [C03]
+//@   modifies alloc()
+//@   ensures #the-datastore-names-the-source-element fresh(result) && result.Source != nil && result.Source.XMLName.Local == source && result.Source.XMLName.Space == ""
+//@ func (*Driver).buildTargetElem [C03]
+//@   modifies alloc()
+//@   ensures #the-datastore-names-the-target-element fresh(result) && result.Source != nil && result.Source.XMLName.Local == target && result.Source.XMLName.Space == ""
+//@ func (*Driver).buildGetElem [C03]
+//@   at call! buildFilterElem#1 assert #the-callers-filter-and-type-reach-the-filter-builder-in-their-places arg0 == old(filter) && arg1 == old(filterType)
+//@   at call! buildPayload#1 assert #the-get-element-carries-exactly-the-built-filter arg0 == box("*netconf.get", getElem) && getElem.Filter == filterElem && getElem.Source == nil
+//@   at return assert #the-built-request-is-returned result.1 == nil ==> result.0 == netconfInput && result.0.MessageID == old(d.messageID)
+//@ func (*Driver).buildGetConfigElem [C03]
+//@   at call! buildFilterElem#1 assert #the-callers-filter-and-type-reach-the-filter-builder-in-their-places arg0 == old(filter) && arg1 == old(filterType)
+//@   at call! buildDefaultsElem#1 assert #the-callers-defaults-type-reaches-the-defaults-builder arg0 == old(defaultType)
+//@   at call! buildSourceElem#1 assert #the-callers-datastore-reaches-the-source-builder arg0 == old(source)
+//@   at call! buildPayload#1 assert #the-get-config-element-carries-exactly-the-built-parts arg0 == box("*netconf.getConfig", getConfigElem) && getConfigElem.Filter == filterElem && getConfigElem.Defaults == defaultsElem
+//@   at return assert #the-built-request-is-returned result.1 == nil ==> result.0 == netconfInput && result.0.MessageID == old(d.messageID)
+
 // ---- C07 ----------------------------------------------------------------------------------------------------------------
 //@ func (*Driver).Close [C07]
 //@   ensures #channel-closed implClosed
@@ -204,9 +233,13 @@ package netconf
 //@   at call! sendRPC#1 assert #sent-with-the-default-operation-options-so-the-connection-wide-timeout-applies arg1 != nil && arg1.Timeout == -1
 //@ func (*Driver).Commit [C05]
 //@   at call! sendRPC#1 assert #sent-with-options-built-from-the-callers-options arg1 != nil && isnew(arg1) && optlog == old(optlog) ++ applied(opts, box("*netconf.OperationOptions", arg1), len(opts)) && (len(opts) == 0 ==> arg1.Timeout == -1)
-//@ func (*Driver).Get [C05]
+//@ func (*Driver).Get [C05 C03]
+//@   at call! buildGetElem#1 assert [C03] #the-callers-filter-is-built-with-the-operations-filter-type arg0 == old(filter) && arg1 == op.FilterType
+//@   at call! sendRPC#1 assert [C03] #the-built-request-is-what-is-sent arg0 == m
 //@   at call! sendRPC#1 assert #sent-with-options-built-from-the-callers-options arg1 != nil && isnew(arg1) && optlog == old(optlog) ++ applied(opts, box("*netconf.OperationOptions", arg1), len(opts)) && (len(opts) == 0 ==> arg1.Timeout == -1)
-//@ func (*Driver).GetConfig [C05]
+//@ func (*Driver).GetConfig [C05 C03]
+//@   at call! buildGetConfigElem#1 assert [C03] #datastore-filter-type-and-defaults-go-to-the-builder-each-in-its-place arg0 == old(source) && arg1 == op.Filter && arg2 == op.FilterType && arg3 == op.DefaultType
+//@   at call! sendRPC#1 assert [C03] #the-built-request-is-what-is-sent arg0 == m
 //@   at call! sendRPC#1 assert #sent-with-options-built-from-the-callers-options arg1 != nil && isnew(arg1) && optlog == old(optlog) ++ applied(opts, box("*netconf.OperationOptions", arg1), len(opts)) && (len(opts) == 0 ==> arg1.Timeout == -1)
 //@ func (*Driver).RPC [C05]
 //@   at call! sendRPC#1 assert #sent-with-options-built-from-the-callers-options arg1 != nil && isnew(arg1) && optlog == old(optlog) ++ applied(opts, box("*netconf.OperationOptions", arg1), len(opts)) && (len(opts) == 0 ==> arg1.Timeout == -1)
